@@ -178,7 +178,7 @@ def classify(run, idx):
                 "ReadChunk(size=%d) at the start of a message whose key has %d bytes (raw %d) answered ErrSizeTooSmall but consumed the message: "
                 "the next ReadChunk(size=%d) returned %s; expected the first chunk of the message with key length %d (it is silently lost); mtu=%d"
                 % (prev[-1]["size"], klen, L, e["size"], got, klen, mtu))
-    return ("C15|unexplained|read|out=%s|fresh=%s|keylen=%d" % (e["out"], fresh, klen),
+    return ("C15|unexplained|read|out=%s|fresh=%s" % (e["out"], fresh),
             "ReadChunk outcome not allowed by Chunk.tla: %s (position: message %d offset %d, mtu=%d)" % (json.dumps(e), j + 1, off, mtu))
 
 
@@ -200,7 +200,7 @@ def report(ctx, rejections, params_by_run, source, stats):
 
 def window_census(runs):
     """All reads at the start of a message with 7 <= size < 7+rawkey: (key length, size) pairs exercised."""
-    seen = set()
+    seen, rems = set(), set()
     for run in runs:
         msgs = messages_of(run)
         tot, starts, acc = 0, {}, 0
@@ -210,13 +210,15 @@ def window_census(runs):
         for x in run:
             if x["ev"] != "read":
                 continue
+            if tot in starts and x["size"] < run[0]["mtu"] and x["size"] <= 40:
+                rems.add(x["size"])
             if tot in starts and 7 <= x["size"] < 7 + rawlen(starts[tot]) and x["size"] < run[0]["mtu"]:
                 seen.add((starts[tot], x["size"]))
             if x["out"] == "chunk":
                 tot += x["n"]
             if x["out"] == "err":
                 break
-    return seen
+    return seen, rems
 
 
 # ---------------------------------------------------------------------------------------------
@@ -242,11 +244,12 @@ def run(ctx):
     low = list(range(49, 114))
     mid = list(range(251, 261))
     high = [1295, 1300] + list(range(65527, 65536))
+    bnd = [rawlen(k) + d for k in KEYLENS for d in (26, 259) if rawlen(k) + d >= 49]   # value head-size boundaries 23/24, 255/256
     if quick:
-        gen_mtus = [rnd.choice(low + mid + mid + high + high)]
+        gen_mtus = [rnd.choice(low + mid + mid + high + high + bnd + bnd)]
         gcfg = gen_cfg(gen_mtus, tails=[3], spans=[0], yieldsets=[[]])
     else:
-        gen_mtus = sorted(set(rnd.sample(low, 2) + rnd.sample(mid, 2) + [1300] + rnd.sample(high, 1)))
+        gen_mtus = sorted(set(rnd.sample(low, 2) + rnd.sample(mid, 1) + [1300] + rnd.sample(high, 1) + rnd.sample(bnd, 1)))
         gcfg = gen_cfg(gen_mtus, tails=[3], spans=[0, 1], yieldsets=[[], [1]])
     gdir = ctx.sub("gen")
     gpath = os.path.join(gdir, "Chunk_Gen_seeded.cfg")
@@ -344,7 +347,7 @@ def run(ctx):
     if quick:
         args += ["-limit", 3000]
     else:
-        args += ["-thorough", "-limit", 80000]
+        args += ["-thorough", "-limit", 60000]
     ctx.run_vh(args, timeout=3000)
     sevs = read_ndjson(spath)
     sruns = split_runs(sevs)
@@ -353,6 +356,13 @@ def run(ctx):
     nhang2 = sum(1 for r in sruns for e in r if e["ev"] == "hang")
     if len(sruns) != len(sparams) and nhang2 < 6:     # after 6 watchdog expiries the harness stops starting runs
         raise Inconclusive("sweep recorded %d of %d runs" % (len(sruns), len(sparams)))
+    if os.environ.get("VERIF_C15_CORRUPT"):
+        # binding demonstration: one recorded field changed (KV.Size of the first chunk of the first run + 1)
+        for e in sruns[0]:
+            if e["ev"] == "read" and e["out"] == "chunk":
+                e["kv"] += 1
+                ctx.log("VERIF_C15_CORRUPT: recorded kv of run %s changed" % sruns[0][0].get("run"))
+                break
     rej2 = validate_runs(ctx, sruns, "sw", per_slice=8000 if quick else 40000, workers=8 if quick else 12)
     report(ctx, rej2, sparams, "Go-side sweep", stats)
     ctx.sample({"recorded_run": sruns[0][:8]})
@@ -386,13 +396,13 @@ def run(ctx):
     ctx.cov["distinct_nontrivial"] += len(distinct)
     ctx.cov["rule"] = ("one evaluation = one ReadChunk call or one reassembled message executed on the real code and validated against "
                        "Chunk_Trace.tla; distinct = distinct (mtu, size asked, key length, outcome, chunk length) tuples among the ReadChunk calls")
-    census = window_census(allruns)
+    census, rems = window_census(allruns)
     win = stats.pop("window", set())
     ctx.notes["runs_replay"] = len(rruns)
     ctx.notes["runs_sweep"] = len(sruns)
     ctx.notes["rejected_runs_by_key"] = dict(stats)
     ctx.notes["mtus_swept"] = len(set(r[0]["mtu"] for r in sruns))
-    ctx.notes["remainders_seen_before_a_new_message"] = sorted(set(s for (_, s) in census))[:60]
+    ctx.notes["remainders_0_40_seen_at_the_start_of_a_message"] = sorted(rems)
     ctx.notes["window_reads_exercised(keylen,size)"] = len(census)
     ctx.notes["window_reads_rejected(keylen,size)"] = len(set((k, s) for (k, s, _) in win))
     table = {}
